@@ -52,7 +52,7 @@ structure RecvOut where
   cap : Nat                -- capacity REQUESTED for the receive buffer when the call returned: the initial
                            -- capacity, or the `need` handed to `slices.Grow`. Go's `Grow` may round the real
                            -- capacity up (amortised growth, size classes); the harness observes the real
-                           -- capacity at every `Read` and checks `cap ≤ real ≤ 2·cap + 4096`.
+                           -- capacity at every `Read` and checks `cap ≤ real ≤ 2·cap + 8192`.
   deriving Repr, Inhabited
 
 /-- the `for` loop of `Recv`. `buf` is `buf[:read]`; `cap` its capacity. Data returned by a `Read` is
